@@ -201,6 +201,7 @@ impl Engine for ConcEngine {
             sweeper: (p.sweeper && ttl).then(|| SweeperCfg { interval_ms: *c.pick(&[1u64, 5, 50]), sample_size: 1 + c.below(4) as usize }),
             create_empty_file: false,
             allow_ambiguous: false,
+            ring: gen_ring(seed),
         };
         // unique value lengths and unique explicit timestamps across the whole scenario
         let mut next_len = 16usize;
